@@ -109,6 +109,7 @@ type Thread struct {
 	// vector clock etc. for race detection live in race.go
 	ParSlot   int // >0 when created by Par
 	skipSched bool
+	busy      bool // inside an engine intrinsic that runs other threads (Quiesce, Yield, FireTickers)
 }
 
 // pathEnd is panicked to unwind the Go stack when a path terminates.
